@@ -5,6 +5,8 @@ import Rl2tp.Proofs.Control
 import Rl2tp.Proofs.DataMsg
 import Rl2tp.Spec.Encode
 import Rl2tp.Proofs.DataWriter
+import Rl2tp.Proofs.GenKinds
+import Rl2tp.Proofs.GenSizes
 namespace Rl2tp.C06
 
 /-- the writers' value octets and attribute numbers are the layout table's -/
@@ -85,5 +87,15 @@ theorem encodeData_eq_spec (d : Data) : encode (.data d) = .ok (Spec.encode (.da
 example : Spec.encodeAvp (.messageType .hello) = [1, 8, 0, 0, 0, 0, 0, 6] := by decide
 example : Spec.encodeAvp (.hidden 7 [0xAA]) = [3, 7, 0, 0, 0, 7, 0xAA] := by decide
 example : Spec.encodeAvp (.proxyAuthenId 9) = [1, 8, 0, 0, 0, 32, 0, 9] := by decide
+
+/-! ### the constants the source's writers emit, as they are now (re-read by bin/gentables on every run) -/
+
+/-- the number the model's writer puts in front of a value of each kind is that kind's `ATTRIBUTE_TYPE` in the source;
+    the version the model's control header carries is the source's `PROTOCOL_VERSION` -/
+theorem source_writer_constants :
+    (∀ r ∈ Gen.typeConstants, (GenKinds.sampleAvp r.1).map (fun a => (Text.kindName a, a.attr.toNat)) = some (r.2.1, r.1)) ∧
+    version (word16 (be16 (mkFlags true true true false false))[0]! (be16 (mkFlags true true true false false))[1]!)
+      = UInt8.ofNat (GenSizes.cc "PROTOCOL_VERSION") :=
+  ⟨GenKinds.writer_attr_is_model, GenSizes.protocol_version_is_model.2⟩
 
 end Rl2tp.C06
